@@ -15,13 +15,13 @@ pid=$(python3 -c "import json;print(json.load(open('$dir/meta.json'))['property'
 if [ -n "$scratch" ]; then
   cd "$scratch" || exit 2
   git checkout -q -- . && git clean -fdq nemoguardrails && git reset -q --hard "$(git -C /repo rev-parse HEAD)" || exit 2
-  git apply "$dir/patch.diff" || { echo "patch does not apply"; exit 2; }
+  { git apply "$dir/patch.diff" 2>/dev/null || git apply -C2 "$dir/patch.diff" 2>/dev/null || git apply -C1 "$dir/patch.diff"; } || { echo "patch does not apply"; exit 2; }
   trap 'git -C "$scratch" checkout -q -- . ; git -C "$scratch" clean -fdq nemoguardrails 2>/dev/null' EXIT
   export VERIF_REPO=$scratch
 else
   cd /repo || exit 2
   if ! git diff --quiet; then echo "/repo has local changes; refusing"; exit 2; fi
-  git apply "$dir/patch.diff" || { echo "patch does not apply"; exit 2; }
+  { git apply "$dir/patch.diff" 2>/dev/null || git apply -C2 "$dir/patch.diff" 2>/dev/null || git apply -C1 "$dir/patch.diff"; } || { echo "patch does not apply"; exit 2; }
   trap 'git -C /repo checkout -q -- . ; git -C /repo clean -fdq nemoguardrails 2>/dev/null' EXIT
   export VERIF_SEEDED=1
 fi
